@@ -2,7 +2,7 @@
    for every input, segmentation and close timing. *)
 From Coq Require Import NArith List Bool Arith Lia.
 Import ListNotations.
-From LTV.C06 Require Import ParamsGen Model ProofsInv ProofsRun.
+From LTV.C06 Require Import ParamsProbe Model ProofsInv ProofsRun.
 
 (* the policy only ever changes by set_retry_disabled at a recognition point *)
 Definition polrel (s s' : hst) : Prop :=
